@@ -71,6 +71,10 @@ def stages(tier, rng, only=None):
                               "Exact(opt)"], SCHEMES, namings=ac.NAMINGS3) \
             + ac.cases(dss, ["Exact(opt)", "ParCons", "ParCons(b3,BioConsert)"], SCHEMES, namings=ac.NAMINGS3, env="standin")
     out.append(ac.stage("sparse_cycles", PID, sparse_first, _nt))
+    out.append(ac.stage("ids_from_tied_buckets", PID, lambda: ac.cases(
+        [ac.tied_first(rng) for _ in range(60 if tier == "quick" else 600)],
+        ["ExactCplex(opt)", "ParCons", "ParCons(b0,BioConsert)", "BioConsert", "KwikSort", "Copeland"], SCHEMES,
+        namings=["scatter", "collide", "letters"]), _nt))
     out.append(ac.stage("lookalike_rankings", PID, lambda: ac.cases(
         ac.lookalike_datasets(rng, 100 if tier == "quick" else 1000), nosolver, SCHEMES, flags=(0, 1), namings=["weird"]),
         _nt))
